@@ -22,16 +22,20 @@ open ShpanVerif.Model.Pipe ShpanVerif.Model.PipeDyn ShpanVerif.Proofs.PipeDyn
 theorem mk0_rested (r0 : Nat) (xs : List Int) (ops : List OOp) (g : V → Inner) (hd : ∀ v, ires (g v) ≠ some r0)
     (w : World) (hb : w.bad = false) (hc : ∀ r, w.isOpen r = false) (ht : w.trace = []) :
     Rested (Obj.mk0 r0 xs ops g) w := by
-  refine ⟨⟨hb, ?_, ?_, List.suffix_refl _, ?_, hd, fun _ => rfl, TI_fresh r0 w ht hc⟩, rfl, rfl, rfl⟩
+  refine ⟨⟨hb, ?_, ?_, List.suffix_refl _, hd, fun _ => rfl, TI_fresh r0 w ht hc⟩, rfl, rfl, rfl⟩
   · intro r; simp [Obj.mk0, hc]
   · intro s hs; simp [Obj.mk0] at hs
-  · intro h; simp [Obj.mk0] at h
 
 /-- `Rested` looks at the world only through `bad` and the open set -/
 theorem rested_world {c : Obj} {w w' : World} (h : Rested c w) (hb : w'.bad = false) (hc : ∀ r, w'.isOpen r = false)
     (ht : w'.trace = []) : Rested c w' := by
-  obtain ⟨⟨h1, h2, h3, h4, h5, h6, h7, h8⟩, ho, hco, hr⟩ := h
-  exact ⟨⟨hb, by intro r; rw [hc r]; simp [ho, hco], h3, h4, h5, h6, h7, TI_fresh c.r0 w' ht hc⟩, ho, hco, hr⟩
+  obtain ⟨⟨h1, h2, h3, h4, h6, h7, h8⟩, ho, hco, hr⟩ := h
+  exact ⟨⟨hb, by intro r; rw [hc r]; simp [ho, hco], h3, h4, h6, h7, TI_fresh c.r0 w' ht hc⟩, ho, hco, hr⟩
+
+/-- the outer source's contents change while the pipeline is at rest: still at rest -/
+theorem rested_setContents {c : Obj} {w : World} (h : Rested c w) (xs' : List Int) : Rested (c.setContents xs') w := by
+  obtain ⟨⟨h1, h2, h3, h4, h6, h7, h8⟩, ho, hco, hr⟩ := h
+  exact ⟨⟨h1, h2, h3, List.suffix_refl _, h6, fun _ => rfl, h8⟩, ho, hco, rfl⟩
 
 /-! ### C04 — the result is the list-level meaning -/
 
@@ -40,9 +44,9 @@ the list-level meaning: the concatenation of the inner streams' elements over th
 stream (then that error, after the elements before it), cut to the first `n` under `Limit(n)`.  Holds for every operator
 object that is at rest, not only a fresh one. -/
 theorem C04_flatmap (fuel : Nat) (kc : Consumer) (lim : Option Int) (c : Obj) (w : World)
-    (hs : StaleOK c) (hw : w.Clean) (hf : fuelNeed c ≤ fuel) :
+    (hw : w.Clean) (hf : fuelNeed c ≤ fuel) :
     (consume fuel kc lim c w).1 = specOutcome lim (flatSpec c.g (outerDen c.ops c.xs)) :=
-  consume_clean fuel kc lim c w hw hs hf
+  consume_clean fuel kc lim c w hw hf
 
 theorem flatSpec_noerror (g : V → Inner) (hg : ∀ v, (g v).isError = false) :
     ∀ vs, flatSpec g vs = (vs.flatMap (fun v => (g v).elems), false)
@@ -57,7 +61,7 @@ theorem C04_flatmap_flatMap (fuel : Nat) (kc : Consumer) (lim : Option Int) (r0 
       .ok (match lim with
            | none => (outerDen ops xs).flatMap (fun v => (g v).elems)
            | some n => ((outerDen ops xs).flatMap (fun v => (g v).elems)).take n.toNat) := by
-  rw [C04_flatmap fuel kc lim _ w (by intro h; simp [Obj.mk0] at h) hw hf]
+  rw [C04_flatmap fuel kc lim _ w hw hf]
   simp only [Obj.mk0, flatSpec_noerror g hg, specOutcome]
   cases lim with
   | none => simp
@@ -78,17 +82,17 @@ theorem specOutcome_ne_oof (lim : Option Int) (d : List V × Bool) : specOutcome
     · split <;> simp
 
 /-- enough fuel exists -/
-theorem C04_flatmap_terminates (kc : Consumer) (lim : Option Int) (c : Obj) (w : World) (hs : StaleOK c) (hw : w.Clean) :
+theorem C04_flatmap_terminates (kc : Consumer) (lim : Option Int) (c : Obj) (w : World) (hw : w.Clean) :
     ∃ fuel0, ∀ fuel, fuel0 ≤ fuel → (consume fuel kc lim c w).1 ≠ .oof :=
-  ⟨fuelNeed c, fun fuel hf => by rw [C04_flatmap fuel kc lim c w hs hw hf]; exact specOutcome_ne_oof _ _⟩
+  ⟨fuelNeed c, fun fuel hf => by rw [C04_flatmap fuel kc lim c w hw hf]; exact specOutcome_ne_oof _ _⟩
 
 /-- **termination in EVERY world**: `fuelNeed c` fuel is enough whatever the fault plan and the cancellation flag are — a
 run under a fault plan ends no later than the run without it (lockstep coupling, `consume_no_oof`) -/
 theorem C04_flatmap_terminates_all (fuel : Nat) (kc : Consumer) (lim : Option Int) (c : Obj) (w : World)
-    (hs : StaleOK c) (hf : fuelNeed c ≤ fuel) : (consume fuel kc lim c w).1 ≠ .oof := by
+    (hf : fuelNeed c ≤ fuel) : (consume fuel kc lim c w).1 ≠ .oof := by
   have hclean : ({ w with fault := none, cancelled := false } : World).Clean := ⟨rfl, rfl⟩
   have h0 : (consume fuel kc lim c { w with fault := none, cancelled := false }).1 ≠ .oof := by
-    rw [C04_flatmap fuel kc lim c _ hs hclean hf]; exact specOutcome_ne_oof _ _
+    rw [C04_flatmap fuel kc lim c _ hclean hf]; exact specOutcome_ne_oof _ _
   exact consume_no_oof fuel kc lim c { w with fault := none, cancelled := false } w ⟨rfl, rfl, rfl⟩ h0
 
 /-! ### C01 — every opened resource is closed exactly once -/
@@ -112,7 +116,7 @@ theorem C01_flatmap_total (fuel : Nat) (kc : Consumer) (lim : Option Int) (c : O
     (consume fuel kc lim c w).2.2.bad = false ∧ (∀ r, (consume fuel kc lim c w).2.2.isOpen r = false) ∧
       Rested (consume fuel kc lim c w).2.1 (consume fuel kc lim c w).2.2 := by
   rcases C01_flatmap fuel kc lim c w h with ho | ⟨h1, h2, h3, _⟩
-  · exact absurd ho (C04_flatmap_terminates_all fuel kc lim c w h.1.stale hf)
+  · exact absurd ho (C04_flatmap_terminates_all fuel kc lim c w hf)
   · exact ⟨h1, h2, h3⟩
 
 /-- **at most one inner stream is open at any time** (trace level): replaying the recorded event trace of the whole
@@ -191,10 +195,10 @@ number of source elements that must be gone through to deliver the first `n` ele
 `Limit(n ≤ 0)`; never more than `xs.length + 1`.  (Nothing is pulled at construction: `Obj.mk0` is data, no world is
 involved; on the real code this is the observed `pre=0`.) -/
 theorem C05_flatmap (fuel : Nat) (kc : Consumer) (lim : Option Int) (c : Obj) (w : World)
-    (hw : w.Clean) (hs : StaleOK c) (hd : Distinct c) (hf : fuelNeed c ≤ fuel) :
+    (hw : w.Clean) (hd : Distinct c) (hf : fuelNeed c ≤ fuel) :
     pulls (consume fuel kc lim c w).2.2.trace c.r0 = pulls w.trace c.r0 + demand lim c ∧
     demand lim c ≤ c.xs.length + 1 := by
-  refine ⟨consume_P fuel kc lim c w hw hs hd hf, ?_⟩
+  refine ⟨consume_P fuel kc lim c w hw hd hf, ?_⟩
   unfold demand
   cases lim with
   | none => exact needPulls_le _ _ _ _
@@ -206,9 +210,9 @@ theorem C05_flatmap (fuel : Nat) (kc : Consumer) (lim : Option Int) (c : Obj) (w
 
 /-- under `Limit(n)`, `n ≥ 1`: exactly the pulls needed for `n` elements -/
 theorem C05_flatmap_limit (fuel : Nat) (kc : Consumer) (n : Int) (hn : 1 ≤ n) (c : Obj) (w : World)
-    (hw : w.Clean) (hs : StaleOK c) (hd : Distinct c) (hf : fuelNeed c ≤ fuel) :
+    (hw : w.Clean) (hd : Distinct c) (hf : fuelNeed c ≤ fuel) :
     pulls (consume fuel kc (some n) c w).2.2.trace c.r0 = pulls w.trace c.r0 + needPulls c.ops c.g n.toNat c.xs := by
-  have := (C05_flatmap fuel kc (some n) c w hw hs hd hf).1
+  have := (C05_flatmap fuel kc (some n) c w hw hd hf).1
   rw [this]; simp only [demand]; rw [if_neg (by omega)]
 
 /-- **C05_flatmap in EVERY world**: whatever the fault plan and the cancellation flag, the outer probe source is pulled at most
@@ -216,9 +220,9 @@ theorem C05_flatmap_limit (fuel : Nat) (kc : Consumer) (n : Int) (hn : 1 ≤ n) 
 at all under `Limit(n ≤ 0)`, at most `xs.length + 1` times without a Limit — a failure or a cancellation can only cut the
 pulling short, never cause extra pulls; for any fuel -/
 theorem C05_flatmap_all (fuel : Nat) (kc : Consumer) (lim : Option Int) (c : Obj) (w : World)
-    (hs : StaleOK c) (hd : Distinct c) :
+    (hd : Distinct c) :
     pulls (consume fuel kc lim c w).2.2.trace c.r0 ≤ pulls w.trace c.r0 + boundAll lim c :=
-  consume_P_all fuel kc lim c w hs hd
+  consume_P_all fuel kc lim c w hd
 
 /-! ### C18 — re-materialisation -/
 
@@ -266,7 +270,7 @@ theorem afterHistory_rested : ∀ (hist : List PastRun) (c c' : Obj) (w0 : World
 /-- **C18_flatmap**: after ANY history of earlier materialisations of the same operator object (any number; each complete,
 stopped early by a Limit, failed or cancelled — any fault plan), a fault-free materialisation returns what a fresh
 pipeline of the same description returns (`C04_flatmap`): the list-level meaning.  The provider left in
-`cp.currProviderFunc` by an earlier run is never consulted: the invariant `StaleOK` shows `cp.open` overwrites it. -/
+`cp.currProviderFunc` by an earlier run is never consulted: `cp.open` forgets it first (repair 2541325). -/
 theorem C18_flatmap (c c' : Obj) (w0 : World) (hist : List PastRun) (fuel : Nat) (kc : Consumer) (lim : Option Int) (w : World)
     (h : Rested c w0) (hw : ∀ r ∈ hist, r.world.bad = false ∧ (∀ x, r.world.isOpen x = false) ∧ r.world.trace = [])
     (he : afterHistory c hist = some c') (hc : w.Clean) (hf : fuelNeed c ≤ fuel) :
@@ -274,33 +278,133 @@ theorem C18_flatmap (c c' : Obj) (w0 : World) (hist : List PastRun) (fuel : Nat)
     (consume fuel kc lim c' w).1 = (consume fuel kc lim c w).1 := by
   obtain ⟨w', hr, hs⟩ := afterHistory_rested hist c c' w0 h hw he
   have hfn : fuelNeed c' = fuelNeed c := by unfold fuelNeed; rw [hs.2.2.2, hs.2.2.1, hs.2.1]
-  have h1 := C04_flatmap fuel kc lim c' w hr.1.stale hc (by rw [hfn]; exact hf)
+  have h1 := C04_flatmap fuel kc lim c' w hc (by rw [hfn]; exact hf)
   rw [hs.2.2.2, hs.2.2.1, hs.2.1] at h1
-  exact ⟨h1, by rw [h1, C04_flatmap fuel kc lim c w h.1.stale hc hf]⟩
+  exact ⟨h1, by rw [h1, C04_flatmap fuel kc lim c w hc hf]⟩
 
-/-! ### a latent defect next to C18: the stale provider IS consulted when the outer source's contents change
+/-! ### C18 for a source whose contents CHANGE between materialisations -/
 
-`concatProvider.open` leaves `cp.currProviderFunc` as it is when the outer stream is empty (concat_streams.go:51-53), and
-nothing else resets it.  The theorems above show this is harmless as long as every materialisation sees the same outer
-elements (`StaleOK`).  For a source whose contents changed to nothing between two materialisations (the model: the same
-operator object with `xs := []`) the provider of the EARLIER materialisation's inner stream is pulled: elements of a
-closed stream are delivered (`bad`: pulled while closed) and the run fails on the stale stream handle.  Reproduced on the
-real code (FlatMap over FromIterator of a slice variable; run 1 `Limit(1)` over `[1]`, run 2 over `[]` delivers 10, 11 and
-fails with "stream index out of range: 1;len=1"; a fresh stream value returns `[]`). -/
+/-- same description up to the contents of the outer source -/
+def Desc (c c' : Obj) : Prop := c'.r0 = c.r0 ∧ c'.ops = c.ops ∧ c'.g = c.g
+
+/-- one earlier materialisation over its own contents of the outer source -/
+structure PastRunV where
+  contents : List Int
+  fuel : Nat
+  consumer : Consumer
+  lim : Option Int
+  world : World
+
+/-- run a history with changing contents on the operator object (the source takes its contents when it is opened) -/
+def afterHistoryV : Obj → List PastRunV → Option Obj
+  | c, [] => some c
+  | c, r :: rs =>
+    match consume r.fuel r.consumer r.lim (c.setContents r.contents) r.world with
+    | (.oof, _, _) => none
+    | (_, c', _) => afterHistoryV c' rs
+
+/-- C01 along such a history: every run ends at rest (everything closed, `bad` off), whatever its contents and world -/
+theorem afterHistoryV_rested : ∀ (hist : List PastRunV) (c c' : Obj) (w0 : World), Rested c w0 →
+    (∀ r ∈ hist, r.world.bad = false ∧ (∀ x, r.world.isOpen x = false) ∧ r.world.trace = []) →
+    afterHistoryV c hist = some c' → ∃ w', Rested c' w' ∧ Desc c c'
+  | [], c, c', w0, h, _, he => by simp [afterHistoryV] at he; subst he; exact ⟨w0, h, rfl, rfl, rfl⟩
+  | r :: rs, c, c', w0, h, hw, he => by
+      have hr := hw r (by simp)
+      have h1 := rested_setContents (rested_world h hr.1 hr.2.1 hr.2.2) r.contents
+      have hc := consume_any r.fuel r.consumer r.lim (c.setContents r.contents) r.world h1
+      simp only [afterHistoryV] at he
+      generalize consume r.fuel r.consumer r.lim (c.setContents r.contents) r.world = x at *
+      obtain ⟨o, c1, w1⟩ := x
+      have step : ∀ (_ : Rested c1 w1) (hs : Same (c.setContents r.contents) c1), ∃ w', Rested c' w' ∧ Desc c c' := by
+        intro hc1 hc2
+        obtain ⟨w', h3, h4⟩ := afterHistoryV_rested rs c1 c' w1 hc1 (fun r' hr' => hw r' (by simp [hr'])) (by
+          cases o <;> simp_all)
+        exact ⟨w', h3, by rw [h4.1, hc2.1]; rfl, by rw [h4.2.1, hc2.2.2.1]; rfl, by rw [h4.2.2, hc2.2.2.2]; rfl⟩
+      cases o with
+      | oof => simp at he
+      | ok d =>
+          simp only at hc
+          rcases hc with hc | ⟨hc1, hc2⟩
+          · simp at hc
+          · exact step hc1 hc2
+      | err e d =>
+          simp only at hc
+          rcases hc with hc | ⟨hc1, hc2⟩
+          · simp at hc
+          · exact step hc1 hc2
+
+/-- **C18_flatmap_any_contents**: after ANY history of earlier materialisations of the same operator object — any number;
+each complete, stopped early by a Limit, failed or cancelled (any fault plan); each over ANY contents of the outer source —
+a fault-free materialisation over contents `xs'` returns exactly what a FRESH pipeline over `xs'` returns: the list-level
+meaning of `xs'`.  In particular over `xs' = []` after an early-stopped run: nothing (the witness below shows what the
+code did before `cp.currProviderFunc = nil` became the first statement of `concatProvider.open`). -/
+theorem C18_flatmap_any_contents (c c' : Obj) (w0 : World) (hist : List PastRunV) (xs' : List Int)
+    (fuel : Nat) (kc : Consumer) (lim : Option Int) (w : World)
+    (h : Rested c w0) (hw : ∀ r ∈ hist, r.world.bad = false ∧ (∀ x, r.world.isOpen x = false) ∧ r.world.trace = [])
+    (he : afterHistoryV c hist = some c') (hc : w.Clean) (hf : fuelNeed (Obj.mk0 c.r0 xs' c.ops c.g) ≤ fuel) :
+    (consume fuel kc lim (c'.setContents xs') w).1 = specOutcome lim (flatSpec c.g (outerDen c.ops xs')) ∧
+    (consume fuel kc lim (c'.setContents xs') w).1 = (consume fuel kc lim (Obj.mk0 c.r0 xs' c.ops c.g) w).1 := by
+  obtain ⟨w', _, hd⟩ := afterHistoryV_rested hist c c' w0 h hw he
+  have hfn : fuelNeed (c'.setContents xs') = fuelNeed (Obj.mk0 c.r0 xs' c.ops c.g) := by
+    unfold fuelNeed Obj.setContents Obj.mk0; simp only []; rw [hd.2.2, hd.2.1]
+  have h1 := C04_flatmap fuel kc lim (c'.setContents xs') w hc (by rw [hfn]; exact hf)
+  have h2 := C04_flatmap fuel kc lim (Obj.mk0 c.r0 xs' c.ops c.g) w hc hf
+  have e1 : (c'.setContents xs').g = c.g := hd.2.2
+  have e2 : (c'.setContents xs').ops = c.ops := hd.2.1
+  have e3 : (c'.setContents xs').xs = xs' := rfl
+  rw [e1, e2, e3] at h1
+  exact ⟨h1, by rw [h1, h2]; rfl⟩
+
+/-! ### why the reset in `concatProvider.open` is needed: the code before the repair 2541325
+
+Before the repair `concatProvider.open` left `cp.currProviderFunc` as it was when the outer stream was empty
+(it returned right after the EOF of the outer stream), and nothing else resets it.  `cpOpenOld` is that variant.  After an
+early-stopped materialisation over `[1]`, a materialisation over the now EMPTY source pulled the provider of the earlier
+materialisation's (closed) inner stream: its elements were delivered (`bad`: pulled while closed) and the run failed on the
+stale stream handle ("stream index out of range: 1;len=1" on the real code; found by this model, reproduced, repaired). -/
+
+/-- `concatProvider.open` before the repair: no `cp.currProviderFunc = nil` -/
+def cpOpenOld (c : Obj) (w : World) : Res Unit × Obj × World :=
+  match openOuter c w with
+  | (.val _, c, w) =>
+    match pullOuter c w with
+    | (.val s, c, w) => openNext c s w
+    | (.eof, c, w) => (.val (), c, w)          -- `currProviderFunc` stays what it was
+    | (res, c, w) => (castRes res, c, w)
+  | (res, c, w) => (res, c, w)
+
+def openCOld (c : Obj) (w : World) : Res Unit × Obj × World :=
+  match cpOpenOld c w with
+  | (.val _, c, w) => (.val (), c, w)
+  | (res, c, w) => let (c, w) := closeFunc c w; (res, c, w)
+
+/-- the terminal over the unrepaired `open` -/
+def consumeOld (fuel : Nat) (k : Consumer) (lim : Option Int) (c : Obj) (w : World) : Outcome × Obj × World :=
+  if limOff lim then
+    (if w.cancelled then .err .ctx [] else .ok [], c, w)
+  else
+    match openCOld c w with
+    | (.val _, c, w) =>
+      match pullLoop fuel k lim 1 c [] w with
+      | (.oof, _, c, w) => (.oof, c, w)
+      | (res, acc, c, w) => let (c, w) := closeFunc c w; (outcomeOf res acc, c, w)
+    | (.fail e, c, w) => (.err e [], c, w)
+    | (.panic b, c, w) => (.err (recovered b) [], c, w)
+    | (_, c, w) => (.oof, c, w)
 
 /-- the operator object after an early-stopped materialisation over `[1]`, its source now being empty -/
 def staleObj : Obj :=
-  let c1 := (consume 20 .collect (some 1) (Obj.mk0 0 [1] [] (fun v => .probe 5 [v, .int (v.key + 1)])) {}).2.1
-  { c1 with xs := [], rest := [] }
+  ((consume 20 .collect (some 1) (Obj.mk0 0 [1] [] (fun v => .probe 5 [v, .int (v.key + 1)])) {}).2.1).setContents []
 
+/-- the unrepaired `open` delivers the elements of the earlier run's closed inner stream (and pulls it while closed);
+    the repaired one delivers nothing, as a fresh pipeline over the empty source does -/
 theorem C18_flatmap_changed_source_witness :
-    ¬ StaleOK staleObj ∧
-    (consume 20 .collect none staleObj {}).1.delivered = [.int 1, .int 2] ∧
-    (consume 20 .collect none staleObj {}).2.2.bad = true ∧
-    (consume 20 .collect none (Obj.mk0 0 [] [] staleObj.g) {}).1.delivered = [] := by
-  refine ⟨?_, by decide +kernel, by decide +kernel, by decide +kernel⟩
-  intro h
-  exact h (by decide +kernel) (by decide +kernel)
+    staleObj.cur.isSome = true ∧
+    (consumeOld 20 .collect none staleObj {}).1.delivered = [.int 1, .int 2] ∧
+    (consumeOld 20 .collect none staleObj {}).2.2.bad = true ∧
+    (consume 20 .collect none staleObj {}).1.delivered = [] ∧
+    (consume 20 .collect none staleObj {}).2.2.bad = false := by
+  refine ⟨by decide +kernel, by decide +kernel, by decide +kernel, by decide +kernel, by decide +kernel⟩
 
 /-! ### non-vacuity: a concrete pipeline meets the hypotheses of every theorem, with non-trivial content
 
@@ -317,11 +421,11 @@ theorem exG_distinct : ∀ v, ires (exG v) ≠ some 0 := by
 
 theorem exObj_rested : Rested exObj {} := mk0_rested 0 _ _ exG exG_distinct {} rfl (fun _ => rfl) rfl
 
-/-- C04: hypotheses hold (`StaleOK`, clean world, fuel) and the result is the non-trivial list `[1, 2, 12, 3]` -/
+/-- C04: hypotheses hold (clean world, fuel) and the result is the non-trivial list `[1, 2, 12, 3]` -/
 example : (consume 20 .collect none exObj {}).1.delivered = [.int 1, .int 2, .int 12, .int 3] := by decide +kernel
 example : fuelNeed exObj ≤ 20 := by decide +kernel
 example : (consume 20 .user (some 2) exObj {}).1.delivered = [.int 1, .int 2] :=
-  by rw [C04_flatmap 20 .user (some 2) exObj {} exObj_rested.1.stale ⟨rfl, rfl⟩ (by decide +kernel)]; decide +kernel
+  by rw [C04_flatmap 20 .user (some 2) exObj {} ⟨rfl, rfl⟩ (by decide +kernel)]; decide +kernel
 
 /-- C01: a world with a panic inside the iterator's acquisition (call position 5): events happened, the fault fired -/
 example : (consume 20 .collect none exObj { fault := some (5, .panicVal) }).2.2.trace.length = 10 ∧
@@ -353,7 +457,21 @@ example : ∀ r ∈ exHist, r.world.bad = false ∧ (∀ x, r.world.isOpen x = f
 example : (runT 0 (consume 20 .collect none exObj {}).2.2.trace) = (true, none) ∧
     ((consume 20 .collect none exObj {}).2.2.trace.filter (fun e => e == .openOk 8 || e == .openOk 7)).length = 3 := by
   decide +kernel
-/-- the early-stopped first run leaves a stale provider behind (`cur ≠ none` at rest): `StaleOK` is what makes it harmless -/
+/-- the early-stopped first run leaves a stale provider behind (`cur ≠ none` at rest); `cp.open` forgets it -/
 example : ((consume 20 .collect (some 1) exObj {}).2.1.cur).isSome = true := by decide +kernel
+
+/-- C18 with changing contents: early stop over `[1,2,3,4]`, a panicking run over `[2]`, a cancelled run over `[]`;
+    then a run over `[]` delivers nothing and a run over `[2,1]` delivers `[2, 12, 1]` -/
+def exHistV : List PastRunV :=
+  [⟨[1, 2, 3, 4], 20, .collect, some 1, {}⟩, ⟨[2], 20, .user, none, { fault := some (4, .panicErr) }⟩,
+   ⟨[], 20, .collect, some 3, { fault := some (1, .cancel) }⟩]
+
+example : (afterHistoryV exObj exHistV).isSome = true := by decide +kernel
+example : ∀ r ∈ exHistV, r.world.bad = false ∧ (∀ x, r.world.isOpen x = false) ∧ r.world.trace = [] := by
+  intro r hr; simp [exHistV] at hr; rcases hr with rfl | rfl | rfl <;> exact ⟨rfl, fun _ => rfl, rfl⟩
+example : (match afterHistoryV exObj exHistV with
+    | some c' => ((consume 20 .collect none (c'.setContents []) {}).1.delivered,
+                  (consume 20 .collect none (c'.setContents [2, 1]) {}).1.delivered)
+    | none => ([], [])) = ([], [.int 2, .int 12, .int 1]) := by decide +kernel
 
 end ShpanVerif.Props.PipeDyn
